@@ -198,10 +198,12 @@ def make_scene(seed, ncam=0, p_invisible=0.1, all_groups_have_types=False, cam_o
       a["projection"] = "orthographic"
       a["fovy"] = _f(rng.uniform(1.5, 5.0))
     elif kind == "intrinsic":
-      w, h = cam_opts.get("res", (32, 24))
+      w, h = cam_opts["res_list"][c] if "res_list" in cam_opts else cam_opts.get("res", (32, 24))
       a["resolution"] = f"{w} {h}"
       sw = rng.uniform(0.002, 0.01)
-      sh = sw * h / w * rng.choice([1.0, 1.0, 0.8, 1.3])
+      sh = sw * h / w
+      if rng.random() < cam_opts.get("p_aspect_mismatch", 0.0):
+        sh *= rng.choice([0.8, 1.3])
       a["sensorsize"] = _f([sw, sh])
       a["focal"] = _f([rng.uniform(0.6, 2.0) * sw, rng.uniform(0.6, 2.0) * sw])
       if rng.random() < 0.6:
@@ -243,7 +245,7 @@ def make_scene(seed, ncam=0, p_invisible=0.1, all_groups_have_types=False, cam_o
   return xml, {"geoms": geoms, "cams": cams, "meshes": use, "hfield": (nr, nc)}
 
 
-def sample_pose(mjm, rng, cam_body_far=False):
+def sample_pose(mjm, rng, cam_shell=False):
   """Per-world state (float32-representable): free joint pose, hinge angle, mocap pose."""
   qpos = np.array(mjm.qpos0, dtype=np.float64)
   for j in range(mjm.njnt):
@@ -257,6 +259,10 @@ def sample_pose(mjm, rng, cam_body_far=False):
   mquat = np.zeros((mjm.nmocap, 4))
   for i in range(mjm.nmocap):
     mpos[i] = [rng.uniform(-1, 1), rng.uniform(-1, 1), rng.uniform(0.3, 1.4)]
+    if cam_shell:  # the mocap body carries cameras: keep it on a shell around the scene
+      dv = rng.normal(size=3)
+      dv[2] = abs(dv[2]) * 0.7 + 0.15
+      mpos[i] = dv / np.linalg.norm(dv) * rng.uniform(2.6, 4.0) + np.array([0, 0, 0.5])
     mquat[i] = _rquat(rng)
   z = np.zeros
   return {
